@@ -7,6 +7,9 @@ require (
 	pgregory.net/rapid v1.3.0
 )
 
-require golang.org/x/exp v0.0.0-20230116083435-1de6713980de // indirect
+require (
+	github.com/biogo/hts v1.2.1 // indirect
+	golang.org/x/exp v0.0.0-20230116083435-1de6713980de // indirect
+)
 
 replace github.com/virus-evolution/gofasta => /repo
